@@ -35,6 +35,9 @@ pub struct CliCase {
     /// additionally run under strace and look for an anonymous executable mapping
     #[serde(default)]
     pub strace: bool,
+    /// deliver stdin through a pipe in this many separate writes (0 = regular file)
+    #[serde(default)]
+    pub stdin_pieces: u8,
 }
 
 #[derive(Clone, Debug, PartialEq)]
@@ -179,8 +182,32 @@ fn run_cli(c: &CliCase, strace: bool) -> Result<Observed, String> {
     } else {
         std::process::Command::new(&cli)
     };
-    cmd.args(&argv).stdin(stdin_file.try_clone().map_err(|e| e.to_string())?).stdout(std::process::Stdio::piped()).stderr(std::process::Stdio::piped());
+    let piped = c.stdin_pieces > 0 && !strace;
+    if piped {
+        cmd.args(&argv).stdin(std::process::Stdio::piped());
+    } else {
+        cmd.args(&argv).stdin(stdin_file.try_clone().map_err(|e| e.to_string())?);
+    }
+    cmd.stdout(std::process::Stdio::piped()).stderr(std::process::Stdio::piped());
     let mut child = cmd.spawn().map_err(|e| format!("spawn: {e}"))?;
+    let t_in = if piped {
+        // the input arrives in several writes with pauses, as from a terminal or a slow producer
+        let mut si = child.stdin.take().unwrap();
+        let data = c.stdin.clone();
+        let pieces = c.stdin_pieces as usize;
+        Some(std::thread::spawn(move || {
+            use std::io::Write as _;
+            let per = (data.len() + pieces - 1) / pieces.max(1);
+            for chunk in data.chunks(per.max(1)) {
+                if si.write_all(chunk).is_err() || si.flush().is_err() {
+                    break;
+                }
+                std::thread::sleep(Duration::from_millis(12));
+            }
+        }))
+    } else {
+        None
+    };
     let mut out = child.stdout.take().unwrap();
     let mut err = child.stderr.take().unwrap();
     // programs are small: read both pipes from helper threads, watch the clock here
@@ -209,9 +236,12 @@ fn run_cli(c: &CliCase, strace: bool) -> Result<Observed, String> {
             }
         }
     };
+    if let Some(t) = t_in {
+        let _ = t.join();
+    }
     let stdout = t_out.join().unwrap_or_default();
     let stderr = String::from_utf8_lossy(&t_err.join().unwrap_or_default()).to_string();
-    let stdin_offset = unsafe { libc::lseek(stdin_file.as_raw_fd(), 0, libc::SEEK_CUR) } as i64;
+    let stdin_offset = if piped { 0 } else { (unsafe { libc::lseek(stdin_file.as_raw_fd(), 0, libc::SEEK_CUR) }) as i64 };
     let exec_mapping = if strace { std::fs::read_to_string(&trace_path).ok().map(|t| t.lines().any(|l| l.contains("PROT_EXEC") && l.contains("PROT_WRITE") && l.contains("MAP_ANONYMOUS"))) } else { None };
     use std::os::unix::process::ExitStatusExt;
     let _ = std::fs::remove_dir_all(&dir);
@@ -407,6 +437,9 @@ impl C16 {
                         Err(_) => {}
                     }
                 }
+                if c.stdin_pieces > 0 && consumed_input && c.stdin.len() >= 2 {
+                    stats.class("stdin-through-a-pipe-in-several-writes");
+                }
                 let nt = m.chunks >= 2 && m.file_chunks >= 1 && nondefault && consumed_input;
                 if nondefault {
                     stats.class("non-default-configuration")
@@ -472,7 +505,7 @@ impl Property for C16 {
         "C16"
     }
     fn rule(&self) -> String {
-        "argument vectors built from a model: 1..4 code chunks (bare arguments, or -f / --file temp files which may also hold comments), interleaved in random order with documented flags only (-O0..-O5, -i8..-i64, --inplace/--ir-int/--bc-int/--base-jit, --limit N incl. invalid N, --static, the four print options, -h), repeated flags (last wins); stdin is a regular temp file; error cases: unbalanced concatenation (a chunk with a stray bracket), a file that does not exist, a file that is not UTF-8. The real binary (built from /repo's working tree) is run as a process. Oracle = model of the documented argument processing + reference interpreter + the library: stdout equals the canonical output of the concatenated code at the selected width (prefix under --limit, and byte-identical to what the selected library back end prints with that budget, which reveals back-end family/level where budgets differ); print options print exactly the library's rendering for the selected (width, level) - which reveals width and level - and leave the stdin offset at 0; exit 0; errors give exit 1, empty stdout and the documented diagnostic; on a sample the run is repeated under strace and the anonymous PROT_EXEC mapping must be present exactly when the base JIT (also: the default) is selected. Non-trivial: at least two chunks of which one from a file, a non-default width/back end/level, and (for runs) input consumed; distinct = distinct (argv model, stdin)".into()
+        "argument vectors built from a model: 1..4 code chunks (bare arguments, or -f / --file temp files which may also hold comments), interleaved in random order with documented flags only (-O0..-O5, -i8..-i64, --inplace/--ir-int/--bc-int/--base-jit, --limit N incl. invalid N, --static, the four print options, -h), repeated flags (last wins); stdin is a regular temp file (70 %) or a pipe fed in 2..7 separate writes with pauses (30 %); error cases: unbalanced concatenation (a chunk with a stray bracket), a file that does not exist, a file that is not UTF-8. The real binary (built from /repo's working tree) is run as a process. Oracle = model of the documented argument processing + reference interpreter + the library: stdout equals the canonical output of the concatenated code at the selected width (prefix under --limit, and byte-identical to what the selected library back end prints with that budget, which reveals back-end family/level where budgets differ); print options print exactly the library's rendering for the selected (width, level) - which reveals width and level - and leave the stdin offset at 0; exit 0; errors give exit 1, empty stdout and the documented diagnostic; on a sample the run is repeated under strace and the anonymous PROT_EXEC mapping must be present exactly when the base JIT (also: the default) is selected. Non-trivial: at least two chunks of which one from a file, a non-default width/back end/level, and (for runs) input consumed; distinct = distinct (argv model, stdin)".into()
     }
     fn assumptions(&self) -> Vec<String> {
         vec![
@@ -509,7 +542,7 @@ impl Property for C16 {
                     args.insert(at, f);
                     k += 1;
                 }
-                CliCase { args, stdin, strace: st == 0 }
+                CliCase { args, stdin, strace: st == 0, stdin_pieces: if st >= 14 { st - 12 } else { 0 } }
             })
             .boxed()
     }
@@ -547,6 +580,6 @@ impl Property for C16 {
     }
     fn floors(&self, tier: Tier) -> Vec<(&'static str, u64)> {
         let q = if tier == Tier::Quick { 1 } else { 20 };
-        vec![("nontrivial", 1500 * q), ("run:limited", 1000 * q), ("error:unbalanced", 600 * q), ("error:file-cannot-be-opened", 300 * q), ("print:PrintIr", 200 * q), ("strace-probe", 200 * q), ("non-default-configuration", 4000 * q), ("limit-output-reveals-backend-family", 200 * q), ("print-ir-reveals-level", 100 * q)]
+        vec![("nontrivial", 1500 * q), ("run:limited", 1000 * q), ("error:unbalanced", 600 * q), ("error:file-cannot-be-opened", 300 * q), ("print:PrintIr", 200 * q), ("strace-probe", 200 * q), ("stdin-through-a-pipe-in-several-writes", 300 * q), ("non-default-configuration", 4000 * q), ("limit-output-reveals-backend-family", 200 * q), ("print-ir-reveals-level", 100 * q)]
     }
 }
